@@ -168,6 +168,33 @@ def gen_case(rng, cli, big=False):
             defs = [x + rng.choice(["", "=1"]) for x in FLAGS if rng.random() < 0.4]
             entries.append([f, defs, [d for d in incdirs if rng.random() < 0.85]])
         plats.append([name, entries])
+    # the same translation unit compiled more than once with EQUAL -D lists but different -I directories
+    # that hold a same-named header of different content (reached by #include or by -include), or with
+    # different forced includes: what one compilation reaches the other does not, and the coverage export
+    # (run on the concatenation of all databases) must still show the union the other reports show
+    srcs = [f for f in files if f[1] == "src" and f[0].endswith((".c", ".cpp")) and not f[0].startswith("ex/")
+            and "gen_" not in f[0]]
+    if plats and srcs and rng.random() < 0.4:
+        tu = rng.choice(srcs)
+        nvar = rng.choice([2, 2, 3])
+        mode = rng.choice(["include", "include", "forced", "forced_files"])
+        defs = [x + rng.choice(["", "=1"]) for x in FLAGS[3:] if rng.random() < 0.5]
+        if mode == "include":
+            tu[2] = rng.choice(['#include "cfg.h"\n', "#include <cfg.h>\n"]) + tu[2]
+        tu[2] += ("" if tu[2].endswith("\n") or not tu[2] else "\n") + \
+            "#ifdef F0\nint on_f0;\n#endif\n#if defined(F1)\nint on_f1;\n#elif defined(F2)\nint on_f2;\n#else\nint on_none;\n#endif\n"
+        for i in range(nvar):
+            body = [f"#define {FLAGS[i]} 1"] + ([f"int cfg_{i};"] if rng.random() < 0.7 else []) + \
+                   ([f"#ifdef {FLAGS[(i + 1) % 3]}", "int other_too;", "#endif"] if rng.random() < 0.3 else [])
+            if rng.random() < 0.4:
+                body = ["#pragma once"] + body
+            if mode == "forced_files":
+                hp, incs, forced = f"cfg/cfg{i}.h", ["cfg"], [f"cfg{i}.h"]
+            else:
+                hp, incs, forced = f"cfg/v{i}/cfg.h", [f"cfg/v{i}"], (["cfg.h"] if mode == "forced" else [])
+            files.append([hp, "src", "\n".join(body) + "\n"])
+            names.add(hp)
+            plats[i % len(plats)][1].append([tu[0], list(defs), incs, forced])
     case = {"files": files, "platforms": plats, "exclude": exclude, "levels": rng.randint(1, 4), "cli": bool(cli)}
     if nplat >= 2 and rng.random() < 0.3:
         # -p selection: the front ends get `-p name ...` on the full analysis file; the in-process
@@ -413,7 +440,7 @@ class C06(Check):
     rule = ("random code bases of 1-9 source/header files in up to 4 directory levels with nested balanced conditionals, "
             "includes, defines, comments and continuations, unused files and headers, excluded files, non-source files, "
             "file symlinks (source and non-source names), dangling and directory symlinks, 0-4 platforms each with 0-3 compile "
-            "commands and random -D sets, in 30 % of the multi-platform cases a -p selection of a proper subset; an exhaustive block of every placement of <= 3 files over 3 positions x 3 contents x "
+            "commands and random -D sets, in 30 % of the multi-platform cases a -p selection of a proper subset, in 40 % one translation unit compiled 2-3 times with equal -D lists but different -I directories holding a same-named header of different content (by #include or -include) or different forced includes; an exhaustive block of every placement of <= 3 files over 3 positions x 3 contents x "
             "3 platform layouts x link/no link; a malformed stream (unbalanced files, empty code base, missing compiled file). "
             "A case is non-trivial if the setmap has >= 2 platform sets, some directory has >= 2 files below it and at least one "
             "file or line is unused")
@@ -474,8 +501,9 @@ class C06(Check):
         toml = ["[codebase]", "exclude = [" + ", ".join(json.dumps(x) for x in case["exclude"]) + "]", "", "[platform]"]
         for name, entries in case["platforms"]:
             db = []
-            for f, defs, incs in entries:
-                args = ["gcc"] + [f"-D{d}" for d in defs] + [f"-I{root / i}" for i in incs] + ["-c", str(root / f)]
+            for f, defs, incs, *rest in entries:
+                forced = [x for n in (rest[0] if rest else []) for x in ("-include", n)]
+                args = ["gcc"] + [f"-D{d}" for d in defs] + [f"-I{root / i}" for i in incs] + forced + ["-c", str(root / f)]
                 db.append({"file": str(root / f), "directory": str(root), "arguments": args})
             (root / f"db_{name}.json").write_text(json.dumps(db))
             if not case.get("select") or name in case["select"]:
@@ -657,6 +685,14 @@ class C06(Check):
         self.hist["links"] += sum(1 for a in attr if a[1])
         if case.get("select"):
             self.hist["select_cases"] = self.hist.get("select_cases", 0) + 1
+        seen_tu = {}
+        for name, entries in case["platforms"]:
+            if case.get("select") and name not in case["select"]:
+                continue
+            for e in entries:
+                seen_tu.setdefault((e[0], tuple(e[1])), set()).add((tuple(e[2]), tuple(e[3]) if len(e) > 3 else ()))
+        if any(len(v) > 1 for v in seen_tu.values()):
+            self.hist["same_tu_same_defs_other_includes"] = self.hist.get("same_tu_same_defs_other_includes", 0) + 1
         self.hist["big_files"] += sum(1 for a in attr if sum(n[1] for n in a[4]) >= 1000)
         return {"status": "Ok", "hyp": {"wf": wf, "links_ok": links_ok}, "attr": attr, "U": U, "setmap": sm,
                 "summary_ip": summary_ip, "dump": dump, "files_ip": files_ip, "cov_ip": cov_ip,
